@@ -23,7 +23,7 @@ class StreamGen:
 
     def gen(self, rng, n_ops=12, n_threads=3, rich=False):
         c = self.c
-        tids = rng.sample([11, 12, 13, 14, 0x200, 0x201], n_threads)
+        tids = rng.sample([11, 12, 13, 14, 0x200, 0x201, 0], n_threads)          # 0: records emitted outside a thread context
         pids = [rng.choice([0, 1, 7, 44, 300]) for _ in tids]
         names = ['launchd', 'xpcproxy', 'Safari', 'kernel_task', 'a', '']
         declared = rng.sample(range(n_threads), rng.randint(1, n_threads))
